@@ -13,6 +13,7 @@ package main
 import (
 	"fmt"
 	"strings"
+	"time"
 
 	"github.com/arloliu/go-secs/v2/hsms"
 )
@@ -37,33 +38,6 @@ func (h *H) runGenBurst(r *Rig, p *Peer, ctr0 uint32, tag string, next func(i in
 		}
 	}
 
-	// connect
-	var startOuts []Frame
-	want := o.Start()
-	for range want {
-		f, res := p.Next(stepTimeout)
-		if res != readFrame {
-			break
-		}
-		startOuts = append(startOuts, f)
-	}
-	bar0, brsp, more, down, tmo := h.fence(p)
-	startOuts = append(startOuts, more...)
-	if down || tmo {
-		obs = append(obs, obsString("n", "D", startOuts, nil))
-		fail("connect", "link not usable after connect", "")
-		emit(true)
-		return genResult{ctr: o.LastSys, ended: true}
-	}
-	st := r.Conn.State()
-	obs = append(obs, obsString(selOf(st), "K", startOuts, r.TakeDelivered()))
-	if !framesEqual(startOuts, want) || st != hsms.NotSelectedState {
-		fail("connect", "frames sent on connect or State() differ", hexes(startOuts))
-	}
-	bursts = append(bursts, bar0.M())
-	obs = append(obs, obsString(selOf(st), "K", []Frame{brsp}, nil))
-	o.Expect(bar0)
-
 	var carry *Frame
 	idx := 0
 	pull := func() *Frame {
@@ -84,9 +58,14 @@ func (h *H) runGenBurst(r *Rig, p *Peer, ctr0 uint32, tag string, next func(i in
 		return &f
 	}
 
-	alive := true
-	for alive {
-		size := 1 + rng.Intn(8)
+	// build draws the next burst (at most size frames) and what the table prescribes for it.
+	type burst struct {
+		fs                  []Frame
+		wantOuts, wantDeliv []Frame
+		classes             []string
+		last                Expect
+	}
+	build := func(size int) burst {
 		var fs []Frame
 		var wantOuts, wantDeliv []Frame
 		var classes []string
@@ -122,6 +101,119 @@ func (h *H) runGenBurst(r *Rig, p *Peer, ctr0 uint32, tag string, next func(i in
 				break
 			}
 		}
+		return burst{fs, wantOuts, wantDeliv, classes, last}
+	}
+
+	// connect. With the TCP-up hold armed (verif seam) the transport is parked just before its
+	// synchronous NotConnected -> NotSelected commit: the peer writes its first burst AND the barrier
+	// in one write while the commit is held. No frame can be dispatched before the commit returns —
+	// the answers must be exactly those of an un-held link.
+	var startOuts []Frame
+	want := o.Start()
+	if hc := r.hold; hc != nil && hc.armed.Load() {
+		select {
+		case <-hc.held:
+		case <-time.After(stepTimeout):
+			fail("connect", "the transport never called TCPUp", "")
+			emit(true)
+			return genResult{ctr: o.LastSys, ended: true}
+		}
+		b := build(h.heldBurst)
+		bar := h.newBarrier()
+		var ms []string
+		var wire []byte
+		for _, f := range b.fs {
+			ms = append(ms, f.M())
+			wire = append(wire, f.Wire()...)
+		}
+		wire = append(wire, bar.Wire()...)
+		go func() {
+			_ = p.Conn.SetWriteDeadline(time.Now().Add(2 * stepTimeout))
+			_, _ = p.Conn.Write(wire)
+		}()
+		time.Sleep(h.holdFor)
+		close(hc.release)
+		var afterSt hsms.ConnState
+		select {
+		case afterSt = <-hc.after:
+		case <-time.After(stepTimeout):
+			fail("connect", "TCPUp did not return", "")
+		}
+		rsp, all, down, tmo := h.collect(p, bar)
+		var outs []Frame
+		for _, f := range all {
+			if f.PT == 0 && f.ST == 1 && len(startOuts) < len(want) {
+				startOuts = append(startOuts, f) // the active side's own Select.req (written by another goroutine)
+			} else {
+				outs = append(outs, f)
+			}
+		}
+		deliv := r.TakeDelivered()
+		obs = append(obs, obsString(selOf(afterSt), "K", startOuts, nil))
+		class := "held-tcpup:" + strings.Join(b.classes, "+")
+		c.Count("held-tcpup")
+		if len(ms) > 0 {
+			bursts = append(bursts, strings.Join(ms, " ; "))
+		}
+		if down || tmo {
+			obs = append(obs, obsString("x", "D", outs, deliv))
+			if tmo {
+				fail(class, "the burst written while the TCP-up commit was held got no answer within the step timeout", "")
+			} else {
+				fail(class, "disconnect", "")
+			}
+			emit(true)
+			return genResult{ctr: o.LastSys, ended: true}
+		}
+		st := r.Conn.State()
+		if len(ms) > 0 {
+			obs = append(obs, obsString(selOf(st), "K", outs, deliv))
+		}
+		if !framesEqual(startOuts, want) || afterSt != hsms.NotSelectedState {
+			fail("connect", "frames sent on connect or State() after TCPUp differ", hexes(startOuts))
+		}
+		if !framesEqual(outs, b.wantOuts) {
+			fail(class, "replies differ", fmt.Sprintf("replies %s, prescribed %s", hexes(outs), hexes(b.wantOuts)))
+		}
+		if !framesEqual(deliv, b.wantDeliv) {
+			fail(class, "handler invocations differ", hexes(deliv))
+		}
+		if selOf(st) != b01(o.Sel) {
+			fail(class, "State() differs from the acknowledged selected state", selOf(st))
+		}
+		bursts = append(bursts, bar.M())
+		obs = append(obs, obsString(selOf(st), "K", []Frame{rsp}, nil))
+		o.Expect(bar)
+	} else {
+		for range want {
+			f, res := p.Next(stepTimeout)
+			if res != readFrame {
+				break
+			}
+			startOuts = append(startOuts, f)
+		}
+		bar0, brsp, more, down, tmo := h.fence(p)
+		startOuts = append(startOuts, more...)
+		if down || tmo {
+			obs = append(obs, obsString("n", "D", startOuts, nil))
+			fail("connect", "link not usable after connect", "")
+			emit(true)
+			return genResult{ctr: o.LastSys, ended: true}
+		}
+		st := r.Conn.State()
+		obs = append(obs, obsString(selOf(st), "K", startOuts, r.TakeDelivered()))
+		if !framesEqual(startOuts, want) || st != hsms.NotSelectedState {
+			fail("connect", "frames sent on connect or State() differ", hexes(startOuts))
+		}
+		bursts = append(bursts, bar0.M())
+		obs = append(obs, obsString(selOf(st), "K", []Frame{brsp}, nil))
+		o.Expect(bar0)
+	}
+
+	alive := true
+	for alive {
+		b := build(1 + rng.Intn(8))
+		fs, wantOuts, wantDeliv, classes, last := b.fs, b.wantOuts, b.wantDeliv, b.classes, b.last
 		if len(fs) == 0 {
 			break
 		}
